@@ -134,9 +134,9 @@ fn candidates(focus: F2) -> &'static Vec<u32> {
         m.insert("C09", ids(&|d| d.family == "res" || (d.family == "tmpl" && d.is_result())));
         m.insert("C10", ids(&|d| d.family == "cif" || (d.family == "inv" && d.cache_if)));
         m.insert("C11", ids(&|d| d.family == "inv"));
-        m.insert("C12", ids(&|d| d.flavour != Flavour::Thread && matches!(d.family, "reg" | "conc" | "concu" | "depg")));
-        m.insert("C13", ids(&|d| d.flavour != Flavour::Thread && ((d.family == "reg") || (d.family == "conc" && d.ttl.is_none()) || (plain(d) && matches!(d.family, "grid" | "bulk") && (d.limit.is_some() || d.max_memory.is_some()) && d.ttl.is_none()))));
-        m.insert("C15", ids(&|d| d.flavour != Flavour::Thread && matches!(d.family, "reg" | "grid" | "concu" | "res" | "inv")));
+        m.insert("C12", ids(&|d| d.flavour != Flavour::Thread && matches!(d.family, "reg" | "conc" | "concu" | "depg" | "oddname")));
+        m.insert("C13", ids(&|d| d.flavour != Flavour::Thread && ((matches!(d.family, "reg" | "oddname")) || (d.family == "conc" && d.ttl.is_none()) || (plain(d) && matches!(d.family, "grid" | "bulk") && (d.limit.is_some() || d.max_memory.is_some()) && d.ttl.is_none()))));
+        m.insert("C15", ids(&|d| d.flavour != Flavour::Thread && matches!(d.family, "reg" | "grid" | "concu" | "res" | "inv" | "oddname")));
         m.insert("C16", ids(&|_| true));
         m.insert("C19", c.funcs.iter().filter(|d| d.gates == 0).map(|d| d.id).collect());
         m
